@@ -297,7 +297,7 @@ def render(prog):
 COLOR = ENUM("color", ["red", "green", "blue", "black"])
 PAIR = REC("pair", [("x", INT), ("y", INT), ("ok", BOOL)])
 CLASSES = ("func", "var-param", "array", "array-lo", "for-zero-trip", "record", "subrange", "case-no-else", "builtin", "enum",
-           "mod-neg", "char-case", "recursion", "enum-case")
+           "mod-neg", "const-cond")
 
 
 class Gen:
@@ -433,7 +433,7 @@ class Gen:
         if k == "var":
             return V(r.choice(sc["bool"])) if sc["bool"] else BL(True)
         if k == "lit":
-            return BL(r.random() < 0.5)
+            return BL(r.random() < 0.5) if self.ok("const-cond") else B("<", self.small(), self.small())
         if k == "not":
             return U("not", self.bool_expr(sc, d - 1))
         if k in ("and", "or"):
@@ -527,10 +527,10 @@ class Gen:
         sc2 = dict(sc, ro=sc["ro"] + [c])
         if k == "while":
             n = r.randint(0, 4)
-            return IF(BL(True), [ASG(V(c), L(0)), WHILE(B("<", V(c), L(n)), self.stmts(sc2, 3, depth + 1, rest) + [ASG(V(c), B("+", V(c), L(1)))])])
+            return IF(B("=", L(0), L(0)), [ASG(V(c), L(0)), WHILE(B("<", V(c), L(n)), self.stmts(sc2, 3, depth + 1, rest) + [ASG(V(c), B("+", V(c), L(1)))])])
         if k == "repeat":
             n = r.randint(1, 4)
-            return IF(BL(True), [ASG(V(c), L(0)), REPEAT(self.stmts(sc2, 3, depth + 1, rest) + [ASG(V(c), B("+", V(c), L(1)))], B(">=", V(c), L(n)))])
+            return IF(B("=", L(0), L(0)), [ASG(V(c), L(0)), REPEAT(self.stmts(sc2, 3, depth + 1, rest) + [ASG(V(c), B("+", V(c), L(1)))], B(">=", V(c), L(n)))])
         lo = r.randint(-2, 3)
         n = r.randint(0 if self.ok("for-zero-trip") else 1, 4)
         up = r.random() < 0.6
